@@ -63,6 +63,12 @@ func C01(c *run.Ctx) {
 					s.Refresh(victim.Latest, "", nil)
 					s.Sweep("refresh")
 				}
+				if i%4 == 1 {
+					// let the code's own lifetime pass (its tokens live on) and have another code issued before the replay
+					s.Advance(s.Cfg.CodeLife + time.Minute)
+					s.Authorize(sim.AuthzReq{Client: pick(r, clientIDs), RT: "code", Scopes: []string{"fosite"}})
+					s.Sweep("advance-past-code-lifetime")
+				}
 				// the replay; sometimes by a foreign authenticated client
 				o := sim.RedeemOpts{}
 				if r.Intn(3) == 0 {
